@@ -210,6 +210,10 @@ fn approve_case(n: usize) -> (bool, bool, bool) {
                 },
                 "OBL C01.approve_err_is_proof_err: a rejected proof's error is returned unchanged; otherwise only an empty batch fails"
             );
+            assert!(
+                !(matches!(vp, Some(Ok(_))) && n >= 1),
+                "OBL C08.approval_honours_any_retained_set: a non-empty batch is refused only if validate_proof refused the proof — a valid proof from an older, still retained set (latest flag false) approves just like one from the newest set"
+            );
             assert!(shim::no_external_effects(), "OBL C01.rejected_approval_no_effect");
             (false, false, false)
         }
